@@ -62,6 +62,8 @@ def check(src, rep):
     eg = p1model.exit_and_guard(p)
     emit_p(rep, p, eg, {"release": "R1", "cap": "R2", "trip": "R3", "unconsumed": "R4"})
     emit_p(rep, p, [r for r in p1model.buffer_contracts(p) if r.instance in ("pop", "clear", "trim-to-position", "trim-to-start", "trim-keeps-consumed")], {"buffer": "R1", "release": "R1"})
+    # every call that buffers a non-empty chunk reaches the length guard (no return before it)
+    emit_p(rep, p, [r for r in p1model.skeleton(p) if r.tag == "growth"], {"growth": "R2"})
     # keep rows are the only growth of the collected lines and the step never stores anything else
     for pp in p.paths:
         for op in pp.post.raw_ops:
